@@ -1,30 +1,42 @@
 #!/usr/bin/env python3
 """Run every quick check against each behaviour-preserving patch under a directory (expected: all exit 0).
-usage: refcheck.py <dir with */patch.diff> [Cxx ...]"""
+usage: refcheck.py <dir with */patch.diff> [--jobs N] [Cxx ...]"""
 import glob, os, subprocess, sys, tempfile, shutil
+from concurrent.futures import ThreadPoolExecutor
 HERE = os.path.dirname(os.path.dirname(os.path.abspath(__file__)))  # the snapshot this script belongs to
-root = sys.argv[1]
-checks = sys.argv[2:] or [f"C{i:02d}" for i in range(1, 18)]
-bad = 0
-for pd_ in sorted(glob.glob(os.path.join(root, "*", "patch.diff"))):
+args = sys.argv[1:]
+jobs = 1
+if "--jobs" in args:
+    i = args.index("--jobs"); jobs = int(args[i + 1]); del args[i : i + 2]
+root = args[0]
+checks = args[1:] or [f"C{i:02d}" for i in range(1, 18)]
+
+
+def one(pd_):
     name = os.path.basename(os.path.dirname(pd_))
     wt = tempfile.mkdtemp(prefix="fmc_rf_", dir="/tmp"); os.rmdir(wt)
     subprocess.run(f"git -C /repo worktree add -q --detach {wt} HEAD", shell=True, check=True)
+    nbad = 0
     try:
         a = subprocess.run(f"git -C {wt} apply {pd_}", shell=True, capture_output=True, text=True)
         if a.returncode:
-            print(f"{name}: patch does not apply ({a.stderr.strip()[:120]})"); continue
-        b = subprocess.run(f"python3 /verif/tools/baseline.py {wt}", shell=True, capture_output=True, text=True)
+            print(f"{name}: patch does not apply ({a.stderr.strip()[:120]})", flush=True); return 0
+        b = subprocess.run(f"python3 {HERE}/tools/baseline.py {wt}", shell=True, capture_output=True, text=True)
         res = []
         for c in checks:
             r = subprocess.run(f"/venv/bin/python -m fmc check {c} --tier quick", shell=True, cwd=HERE, capture_output=True, text=True,
                                env=dict(os.environ, FMC_REPO=wt))
             if r.returncode != 0:
-                bad += 1
+                nbad += 1
                 first = next((l.strip() for l in r.stdout.splitlines() if l.startswith("  clause=")), r.stdout[-200:] + r.stderr[-300:])
                 res.append(f"{c}:exit={r.returncode} {first[:260]}")
-        print(f"{name}: {b.stdout.strip().splitlines()[0]} | " + ("all checks silent" if not res else "ALARMS: " + " || ".join(res)), flush=True)
+        print(f"{name}: {(b.stdout.strip().splitlines() or ['?'])[0]} | " + ("all checks silent" if not res else "ALARMS: " + " || ".join(res)), flush=True)
     finally:
         subprocess.run(f"git -C /repo worktree remove --force {wt}", shell=True)
         shutil.rmtree(wt, ignore_errors=True)
+    return nbad
+
+
+with ThreadPoolExecutor(jobs) as ex:
+    bad = sum(ex.map(one, sorted(glob.glob(os.path.join(root, "*", "patch.diff")))))
 print("alarms:", bad)
